@@ -77,6 +77,9 @@ func (am *Machine) handleStateDkgCommitsAwaitConfirmations(o *client.Operation) 
 
 	pid := -1
 	for _, r := range payload {
+		if r == nil {
+			return fmt.Errorf("empty participant entry in payload")
+		}
 		pubkey := am.baseSuite.Point()
 		if err := pubkey.UnmarshalBinary(r.DkgPubKey); err != nil {
 			return fmt.Errorf("failed to unmarshal dkg pubkey: %w", err)
@@ -106,6 +109,9 @@ func (am *Machine) handleStateDkgCommitsAwaitConfirmations(o *client.Operation) 
 	dkgInstance.N = len(payload)
 
 	for _, entry := range payload {
+		if entry == nil {
+			return fmt.Errorf("empty participant entry in payload")
+		}
 		pubKey := am.baseSuite.Point()
 		if err = pubKey.UnmarshalBinary(entry.DkgPubKey); err != nil {
 			return fmt.Errorf("failed to unmarshal pubkey: %w", err)
@@ -167,6 +173,9 @@ func (am *Machine) handleStateDkgDealsAwaitConfirmations(o *client.Operation) er
 	}
 
 	for _, entry := range payload {
+		if entry == nil {
+			return fmt.Errorf("empty participant entry in payload")
+		}
 		var commitsBz [][]byte
 		if err = json.Unmarshal(entry.DkgCommit, &commitsBz); err != nil {
 			return fmt.Errorf("failed to unmarshal commits: %w", err)
@@ -249,6 +258,9 @@ func (am *Machine) handleStateDkgResponsesAwaitConfirmations(o *client.Operation
 	}
 
 	for _, entry := range payload {
+		if entry == nil {
+			return fmt.Errorf("empty participant entry in payload")
+		}
 		//do not store deals from ourselves because of the hack above
 		if entry.ParticipantId == dkgInstance.ParticipantID {
 			continue
@@ -310,6 +322,9 @@ func (am *Machine) handleStateDkgMasterKeyAwaitConfirmations(o *client.Operation
 	}
 
 	for _, entry := range payload {
+		if entry == nil {
+			return fmt.Errorf("empty participant entry in payload")
+		}
 		var entryResponses []*dkgPedersen.Response
 		if err = json.Unmarshal(entry.DkgResponse, &entryResponses); err != nil {
 			return fmt.Errorf("failed to unmarshal responses: %w", err)
